@@ -3,6 +3,7 @@ package checks
 import (
 	"fmt"
 	"math/big"
+	"os"
 	"sort"
 	"strings"
 
@@ -22,14 +23,97 @@ func outcomeSet(st *explore.Stats) string {
 	return strings.Join(ks, "|")
 }
 
+func selfFail(r *core.Result, what string) {
+	if r.ToolError == "" {
+		r.ToolError = "engine self-test failed: " + what
+	} else {
+		r.ToolError += "\n" + what
+	}
+}
+
+func selftestFamily2(part, parts int) core.Unit {
+	return core.Unit{Name: fmt.Sprintf("DPOR vs reduction-free search: 3 goroutines + root, counter/unbuffered channel/mutex/pool, part %d/%d", part, parts), Run: func(ctx *core.Ctx, r *core.Result) {
+		if !vsched.Instrumented {
+			return
+		}
+		// operations: 0 R (counter read), 1 A (counter add local+1), 2 S (send on an unbuffered channel),
+		// 3 V (receive), 4 L (lock; read-modify-write of a plain variable; unlock), 5 P (pool get, observe, put)
+		mism, compared := 0, 0
+		defer func() { r.Note("n_programs_compared", compared) }()
+		for code := 0; code < 1296 && mism < 3; code++ {
+			ops := [4]int{code % 6, (code / 6) % 6, (code / 36) % 6, (code / 216) % 6}
+			body := func() string {
+				var c vsched.Counter
+				ch := vsched.MakeChan[int](0)
+				var mu vsched.Mutex
+				plain := 0
+				pool := &vsched.Pool{New: func() interface{} { return new(int) }}
+				locs := [4]int{1, 2, 3, 4}
+				do := func(op int, loc *int) {
+					switch op {
+					case 0:
+						*loc = c.Read()
+					case 1:
+						c.Add(*loc + 1)
+					case 2:
+						ch.Send(*loc)
+					case 3:
+						*loc = ch.Recv() + 10
+					case 4:
+						mu.Lock()
+						plain = plain*2 + *loc
+						mu.Unlock()
+					case 5:
+						x := pool.Get().(*int)
+						*loc = *loc*100 + *x
+						*x = *loc % 7
+						pool.Put(x)
+					}
+				}
+				var wg vsched.WaitGroup
+				for g := 0; g < 3; g++ {
+					wg.Add(1)
+					vsched.Go1(func(g int) { do(ops[g], &locs[g]); wg.Done() }, g)
+				}
+				do(ops[3], &locs[3])
+				wg.Wait()
+				return fmt.Sprint(locs, c.Read(), plain)
+			}
+			if code%parts != part {
+				continue
+			}
+			n := explore.Naive(body, explore.Options{MaxExecs: 12000})
+			if !n.Exhaustive {
+				continue // too many interleavings for the reduction-free search: not compared
+			}
+			d := explore.DPOR(body, explore.Options{DataBudget: -1, MaxExecs: 100000})
+			r.Evals += int64(d.Execs + n.Execs)
+			compared++
+			if !d.Exhaustive {
+				selfFail(r, fmt.Sprintf("generated program %v did not finish", ops))
+				mism++
+				continue
+			}
+			if outcomeSet(d) != outcomeSet(n) {
+				selfFail(r, fmt.Sprintf("DPOR and reduction-free search disagree on generated 3-goroutine program %v:\n dpor : %s\n naive: %s", ops, outcomeSet(d), outcomeSet(n)))
+				mism++
+			}
+		}
+	}}
+}
+
 func init() {
 	core.Register(&core.Check{
-		ID: "SELFTEST", Level: "other", Rule: "engine self-test", Workers: 4,
+		ID: "SELFTEST", Level: "other", Rule: "engine self-test",
 		Units: func(ctx *core.Ctx) []core.Unit {
 			fail := func(r *core.Result, what string) {
-				r.ToolError = "engine self-test failed: " + what
+				if r.ToolError == "" {
+					r.ToolError = "engine self-test failed: " + what
+				} else {
+					r.ToolError += "\n" + what
+				}
 			}
-			return []core.Unit{
+			us := []core.Unit{
 				{Name: "closed-form counts", Run: func(ctx *core.Ctx, r *core.Result) {
 					if !vsched.Instrumented {
 						return
@@ -171,6 +255,151 @@ func init() {
 					}
 					r.Evals += int64(st.Execs)
 				}},
+				{Name: "DPOR vs reduction-free search on a family of small programs", Run: func(ctx *core.Ctx, r *core.Result) {
+					if !vsched.Instrumented {
+						return
+					}
+					type prog struct {
+						name string
+						body func() string
+					}
+					progs := []prog{
+						{"2 producers, 1 consumer, buffered(1)", func() string {
+							ch := vsched.MakeChan[int](1)
+							for i := 0; i < 2; i++ {
+								vsched.Go1(func(i int) { ch.Send(i); ch.Send(10 + i) }, i)
+							}
+							o := ""
+							for i := 0; i < 4; i++ {
+								o += fmt.Sprint(ch.Recv(), ",")
+							}
+							return o
+						}},
+						{"read-modify-write + rendezvous", func() string {
+							var c vsched.Counter
+							ch := vsched.MakeChan[int](0)
+							vsched.Go0(func() { v := c.Read(); c.Add(v + 1); ch.Send(1) })
+							vsched.Go0(func() { v := c.Read(); c.Add(v + 5); ch.Send(2) })
+							a := ch.Recv()
+							x := c.Read()
+							b := ch.Recv()
+							return fmt.Sprint(a, x, b, c.Read())
+						}},
+						{"pool identity", func() string {
+							p := &vsched.Pool{New: func() interface{} { return new(int) }}
+							var wg vsched.WaitGroup
+							outs := make([]string, 2)
+							for i := 0; i < 2; i++ {
+								wg.Add(1)
+								vsched.Go1(func(i int) {
+									x := p.Get().(*int)
+									outs[i] = fmt.Sprint(*x)
+									*x = i + 1
+									p.Put(x)
+									wg.Done()
+								}, i)
+							}
+							wg.Wait()
+							return outs[0] + "/" + outs[1]
+						}},
+						{"mutex sections + unprotected read", func() string {
+							var mu vsched.Mutex
+							var c vsched.Counter
+							var wg vsched.WaitGroup
+							for i := 0; i < 2; i++ {
+								wg.Add(1)
+								vsched.Go1(func(i int) { mu.Lock(); v := c.Read(); c.Add(v*2 + i + 1 - v); mu.Unlock(); wg.Done() }, i)
+							}
+							early := c.Read()
+							wg.Wait()
+							return fmt.Sprint(early, c.Read())
+						}},
+						{"close vs send race observed by the receiver", func() string {
+							ch := vsched.MakeChan[int](2)
+							vsched.Go0(func() { ch.Send(7) })
+							vsched.Go0(func() { vsched.Yield(); ch.Send(8) })
+							a, ok1 := ch.Recv2()
+							b, ok2 := ch.Recv2()
+							return fmt.Sprint(a, ok1, b, ok2)
+						}},
+					}
+					for _, p := range progs {
+						d := explore.DPOR(p.body, explore.Options{DataBudget: -1, MaxExecs: 200000})
+						n := explore.Naive(p.body, explore.Options{MaxExecs: 2000000})
+						if f := explore.DPOR(p.body, explore.Options{DataBudget: -1, MaxExecs: 200000, FullRace: true}); outcomeSet(f) != outcomeSet(d) || f.Execs != d.Execs {
+							fail(r, fmt.Sprintf("incremental and textbook race detection differ on %q: %d vs %d executions\n incr: %s\n full: %s", p.name, d.Execs, f.Execs, outcomeSet(d), outcomeSet(f)))
+						}
+						r.Evals += int64(d.Execs + n.Execs)
+						if !d.Exhaustive || !n.Exhaustive {
+							fail(r, "self-test program did not finish: "+p.name)
+						}
+						if outcomeSet(d) != outcomeSet(n) {
+							fail(r, fmt.Sprintf("DPOR and reduction-free search disagree on %q:\n dpor : %s\n naive: %s", p.name, outcomeSet(d), outcomeSet(n)))
+						}
+						if d.Execs > n.Execs {
+							fail(r, fmt.Sprintf("DPOR explored more executions (%d) than the reduction-free search (%d) on %q", d.Execs, n.Execs, p.name))
+						}
+					}
+				}},
+				{Name: "DPOR vs reduction-free search on all 1024 generated programs", Run: func(ctx *core.Ctx, r *core.Result) {
+					if !vsched.Instrumented {
+						return
+					}
+					// programs: goroutines G1, G2 run two operations each, the root runs one operation and then
+					// observes everything; operations: R = read the counter into a local, A = add (local+1) to the
+					// counter, S = send the local on a buffered(2) channel, V = receive into the local.
+					type env struct {
+						c  vsched.Counter
+						ch *vsched.Chan[int]
+					}
+					do := func(e *env, op int, loc *int) {
+						switch op {
+						case 0:
+							*loc = e.c.Read()
+						case 1:
+							e.c.Add(*loc + 1)
+						case 2:
+							e.ch.Send(*loc)
+						case 3:
+							*loc = e.ch.Recv() + 10
+						}
+					}
+					mism := 0
+					for code := 0; code < 1024 && mism < 3; code++ {
+						if dbg := os.Getenv("VERIF_DEBUG_PROG"); dbg != "" && dbg != fmt.Sprint(code) {
+							continue
+						}
+						ops := [5]int{code & 3, (code >> 2) & 3, (code >> 4) & 3, (code >> 6) & 3, (code >> 8) & 3}
+						body := func() string {
+							e := &env{ch: vsched.MakeChan[int](2)}
+							var wg vsched.WaitGroup
+							locs := [3]int{1, 2, 3}
+							for g := 0; g < 2; g++ {
+								wg.Add(1)
+								vsched.Go1(func(g int) {
+									do(e, ops[2*g], &locs[g])
+									do(e, ops[2*g+1], &locs[g])
+									wg.Done()
+								}, g)
+							}
+							do(e, ops[4], &locs[2])
+							wg.Wait()
+							return fmt.Sprint(locs, e.c.Read(), e.ch.Len())
+						}
+						d := explore.DPOR(body, explore.Options{DataBudget: -1, MaxExecs: 100000, FullRace: os.Getenv("VERIF_FULLRACE") != "", Debug: os.Getenv("VERIF_DEBUG_PROG") != ""})
+						n := explore.Naive(body, explore.Options{MaxExecs: 1000000})
+						r.Evals += int64(d.Execs + n.Execs)
+						if !d.Exhaustive || !n.Exhaustive {
+							fail(r, fmt.Sprintf("generated program %v did not finish", ops))
+							mism++
+							continue
+						}
+						if outcomeSet(d) != outcomeSet(n) {
+							fail(r, fmt.Sprintf("DPOR and reduction-free search disagree on generated program %v:\n dpor : %s\n naive: %s", ops, outcomeSet(d), outcomeSet(n)))
+							mism++
+						}
+					}
+				}},
 				{Name: "shim vs native primitives", Run: func(ctx *core.Ctx, r *core.Result) {
 					// pass-through mode: behaviour of the shim channel/WaitGroup equals the native one on a few programs
 					ch := vsched.MakeChan[int](2)
@@ -214,6 +443,10 @@ func init() {
 					r.Evals += 3
 				}},
 			}
+			for p := 0; p < 16; p++ {
+				us = append(us, selftestFamily2(p, 16))
+			}
+			return us
 		},
 	})
 }
